@@ -66,6 +66,22 @@ Theorem C17_reversible_sound_partial :
 Proof. exact reversible_sound_static. Qed.
 Print Assumptions C17_reversible_sound_partial.
 
+(** ... and when the planner is given the inspection of the state it will run on ([from = inspect d],
+    what the CLI does), [from_ok] follows from a condition on the state alone: [idx_ok d] -- no inline
+    UNIQUE constraints, and every explicit index has a name outside the sqlite_autoindex namespace, an
+    inspected form that is a fixed point of [inspect_index], that CREATE INDEX accepts and that the
+    rows satisfy when UNIQUE. *)
+Theorem C17_reversible_sound_inspect_partial :
+  forall (to : xschema) (cs : list schange) (p : plan) (d d1 : db),
+  db_wf d = true -> names_ok d -> idx_ok d -> xschema_wf to = true -> no_drop_table cs = true ->
+  PlanChanges (inspect d) to cs = Some p -> p_reversible p = true ->
+  fresh_drops (p_changes p) = true ->
+  droppable_along d (p_changes p) ->
+  exec_all d (up_stmts (p_changes p)) = EngineModel.Ok d1 ->
+  exists d2, exec_all d1 (down_stmts (p_changes p)) = EngineModel.Ok d2 /\ sim d d2.
+Proof. exact reversible_sound_inspect. Qed.
+Print Assumptions C17_reversible_sound_inspect_partial.
+
 (** the same with the conditions stated along the run ([conds]: each DROP INDEX arm faithful and
     each created table droppable in the state the change executes in) instead of [from_ok] /
     [fresh_drops] / [droppable_along] *)
@@ -196,6 +212,12 @@ Proof.
   inversion Hn; subst i'; clear Hn.
   exists (mkCT (mkX (mkTable [116]%N false false [ex_col [97]%N; ex_col [98]%N] None [ex_ix] [] []) []) [] []), ex_ix.
   repeat split; try reflexivity. now left.
+Qed.
+Example C17_idx_ok_nonvacuous : idx_ok ex_d /\ names_ok ex_d.
+Proof.
+  split.
+  - intros ct [<-|[]]. split; [reflexivity|]. intros j [<-|[]]. repeat split; reflexivity.
+  - unfold names_ok. vm_compute. repeat constructor; simpl; intuition discriminate.
 Qed.
 Example C17_static_premises_nonvacuous :
   match PlanChanges (inspect ex_d) [ex_table_noidx] [ModifyTable [116]%N [DropIndex [105;120]%N]] with
